@@ -105,7 +105,7 @@ impl Check for C08 {
                 for _ in 0..n {
                     it = gen::mutate_item(&mut ctx.rng, &it);
                 }
-                through_carriers(ctx, &it, 2, n == 1, true);
+                through_carriers(ctx, &it, 2, false, true);
             }
             3 => {
                 let n = ctx.rng.below(6);
